@@ -334,11 +334,14 @@ Section FrameProofs.
   Lemma f_header_ge cap hdr cap1 : f_header cap hdr = Some cap1 -> f_hs <= cap1.
   Proof.
     unfold FrameModel.f_header.
-    destruct (_ && _); [|discriminate]. destruct (rd32 hdr <=? max_in); [|discriminate].
-    destruct (rd32 hdr <=? _).
+    destruct ((c_MUSCLE_MESSAGE_ENCODING_DEFAULT <=? rd32 (drop 4 hdr)) && (rd32 (drop 4 hdr) <=? c_MUSCLE_MESSAGE_ENCODING_END_MARKER - 1)); [|discriminate].
+    destruct ((rd32 hdr <=? max_in) && (rd32 hdr <=? c_MUSCLE_NO_LIMIT - f_hs)) eqn:Eb; [|discriminate].
+    apply andb_true_iff in Eb. destruct Eb as [_ Eb].
+    assert (Hnl : c_MUSCLE_NO_LIMIT = two32 - 1) by reflexivity.
+    destruct (rd32 hdr <=? (if f_hs <? cap then cap - f_hs else 0)).
     - intros H. assert (cap1 = f_hs + rd32 hdr) by congruence. lia.
-    - destruct (f_hs <=? u32 (f_hs + rd32 hdr)) eqn:E; [|discriminate]. intros H.
-      assert (cap1 = u32 (f_hs + rd32 hdr)) by congruence. lia.
+    - intros H. assert (cap1 = u32 (f_hs + rd32 hdr)) by congruence. subst cap1.
+      unfold u32. rewrite N.mod_small; [lia|]. rewrite f_hs_is_8 in *. unfold two32 in *. lia.
   Qed.
 
   Definition turn_res (t : fturn CR) : frecv * list bytes * bytes :=
@@ -604,11 +607,14 @@ Section FrameProofs.
     { apply rd32_le32. rewrite f_hs_is_8 in Hs. lia. }
     rewrite Eenc, Ebody.
     assert (E1 : (c_MUSCLE_MESSAGE_ENCODING_DEFAULT <=? enc) && (enc <=? c_MUSCLE_MESSAGE_ENCODING_END_MARKER - 1) = true) by lia.
-    rewrite E1. assert (E2 : (blen payload <=? max_in) = true) by lia. rewrite E2.
+    rewrite E1.
+    assert (Hnl : c_MUSCLE_NO_LIMIT = two32 - 1) by reflexivity.
+    assert (E2 : (blen payload <=? max_in) && (blen payload <=? c_MUSCLE_NO_LIMIT - f_hs) = true).
+    { rewrite f_hs_is_8 in *. unfold two32 in *. lia. }
+    rewrite E2.
     assert (E3 : (f_hs <? f_scratch) = true) by (vm_compute; reflexivity). rewrite E3.
     destruct (blen payload <=? f_scratch - f_hs); [reflexivity|].
-    unfold u32. rewrite N.mod_small by exact Hs.
-    assert (E4 : (f_hs <=? f_hs + blen payload) = true) by lia. rewrite E4. reflexivity.
+    unfold u32. rewrite N.mod_small by exact Hs. reflexivity.
   Qed.
 
   Lemma f_feed_frame cs cr m : sync cs cr -> wfb m ->
